@@ -29,6 +29,15 @@ def run(ctx):
                        "simultaneous CONNECTs (%s) forced through the gate hooks; non-trivial = all scenarios" % ("1 seeded parameter vector, 500 seeded schedules" if quick else "4 seeded parameter vectors, all schedules"))
     ctx.assumptions += ["real seconds; decisive instants >= 500 ms from deadlines; WinMs = 450 ms either verdict allowed inside the window",
                         "hook events are logged under srv.mu (their order is the broker's order)"]
+    # ---- unbounded number of steps, 5 connections: Apalache discharges the inductive invariant of the take-over protocol
+    ind = {}
+
+    def inductive():
+        ind["init"] = ctx.apalache("TakeOverInd", "Init", "IndInv", 0)
+        ind["step"] = ctx.apalache("TakeOverInd", "IndInv", "IndInv", 1)
+    import threading
+    ith = threading.Thread(target=inductive)
+    ith.start()
     # ---- schedule gating: every interleaving of simultaneous CONNECTs at gate granularity (TakeOver.tla)
     res2, sch2 = tk.run_model(ctx, 2, tk.PRES, tk.all_pars(2), workers=4)
     if res2.violation or res2.rc != 0:
@@ -51,6 +60,12 @@ def run(ctx):
         design["mutant_violates_OneLive"] = caught
         if not all(caught.values()):
             raise vlib.MachineryError("self-test: a mutant of TakeOver.tla does not violate OneLive: %s" % caught)
+    ith.join()
+    if "error" in ind.values():
+        raise vlib.MachineryError("TakeOverInd.tla: IndInv is not inductive (model bug): %s" % ind)
+    design["inductive_invariant_apalache"] = {"module": "TakeOverInd.tla", "connections": 5, "Init=>IndInv": ind.get("init"),
+                                              "IndInv/\\Next=>IndInv'": ind.get("step"),
+                                              "implies": "OneLive, StoredWhenOnline for behaviours of any length, all parameter vectors and initial situations"}
     ctx.cov["takeover_model"] = design
     rejected_g, stats_g = trace_lib.validate(ctx, gated, "c05gate", invariants=INV, par=32)
     ctx.cov["traces_validated_against_impl"] += stats_g["validated"] + stats_g["rejected"]
